@@ -249,7 +249,10 @@ type TimingOpts struct {
 	// SlowScalar/SlowVector/SlowInst > 0: that memory takes one request per so many cycles (sustained
 	// back-pressure: the CU's port buffer and the unit's own queues fill). Horizon overrides the cycle horizon.
 	SlowScalar, SlowVector, SlowInst int
-	Horizon                          int
+	// SlowACE > 0: the dispatcher takes one message (work-group completion) per so many cycles, so that the
+	// CU's 4-entry outgoing buffer towards it fills while further work-groups finish.
+	SlowACE int
+	Horizon int
 	// WarmSGPRs/WarmVGPRs > 0: launch history. Before the kernel, a one-wavefront work-group of a kernel that
 	// consists of s_endpgm only and declares that many scalar / vector registers runs to completion on the same
 	// CU (state that a CU keeps across kernels - scratch buffers, pools, allocation cursors - is then not fresh).
@@ -467,7 +470,7 @@ func RunTiming(x *explore.Exec, k *Kernel, g Geometry, o TimingOpts) (res *Resul
 			running++
 		}
 	}
-	aceS := &world.Sink{W: w, Port: toACE, Tag: "ace", StallAlphabet: []int{1, 5}}
+	aceS := &world.Sink{W: w, Port: toACE, Tag: "ace", StallAlphabet: []int{1, 5}, Every: o.SlowACE}
 	aceS.Handle = func(m sim.Msg) {
 		cmsg, ok := m.(*protocol.WGCompletionMsg)
 		if !ok {
